@@ -17,14 +17,14 @@ import (
 type Record struct {
 	ID         int            `json:"id"`
 	Kind       string         `json:"kind"`
-	Coq        string         `json:"coq"`             // Gallina term of the property's case type
-	Input      any            `json:"input"`           // enough to re-run the case (-replay)
-	Obs        any            `json:"obs,omitempty"`   // what the implementation did (projected)
-	Key        string         `json:"key"`             // canonical form, for distinctness
-	Nontrivial bool           `json:"nontrivial"`      // by the property's stated rule
-	Tags       []string       `json:"tags,omitempty"`  // distribution buckets
-	SelfTest   bool           `json:"selftest"`        // deliberately altered observable: the kernel MUST flag it
-	Direct     *DirectVerdict `json:"direct,omitempty"` // runtime fact decided by the harness itself
+	Coq        string         `json:"coq"`                   // Gallina term of the property's case type
+	Input      any            `json:"input"`                 // enough to re-run the case (-replay)
+	Obs        any            `json:"obs,omitempty"`         // what the implementation did (projected)
+	Key        string         `json:"key"`                   // canonical form, for distinctness
+	Nontrivial bool           `json:"nontrivial"`            // by the property's stated rule
+	Tags       []string       `json:"tags,omitempty"`        // distribution buckets
+	SelfTest   bool           `json:"selftest"`              // deliberately altered observable: the kernel MUST flag it
+	Direct     *DirectVerdict `json:"direct,omitempty"`      // runtime fact decided by the harness itself
 	SelfOf     int            `json:"selftest_of,omitempty"` // id of the unaltered sibling
 	Corpus     string         `json:"corpus,omitempty"`
 }
